@@ -363,7 +363,7 @@ func TestC12(t *testing.T) {
 	})
 
 	// (a) histories
-	rapidRun(t, env, "histories", env.Pick(160, 3200), func(rt *rapid.T) {
+	rapidRun(t, env, "histories", env.Pick(480, 6400), func(rt *rapid.T) {
 		fam := genC12Family(rt)
 		m := c12Meta{}
 		outs := make([]string, len(fam))
